@@ -2490,6 +2490,44 @@ X7_WRAP["_get_payload__io"] = _x9_wrap_io
 # ------------------------------------------------------------------------------------------------ x9 end
 
 
+# ------------------------------------------------------------------------------------------------ x10: default_environment
+X10_ENV_FUNCS = {"default_environment"}
+X10_WORDS = ["", "posix", "nt", "Linux", "x86_64", "6.1.0-13", "#1 SMP", "CPython", "PyPy", "cpython", "linux", "win32", "a b", "3.12.1", "é"]
+
+
+def _g_default_environment(rng):
+    v = version_info()
+    v.major, v.minor, v.micro = rng.choice([3, 7, 0, 12]), rng.choice([0, 9, 13, 100]), rng.choice([0, 1, 17])
+    v.releaselevel = rng.choice(["final", "final", "alpha", "beta", "candidate", "", "f"])
+    v.serial = rng.choice([0, 1, 2, 15])
+    w = lambda: rng.choice(X10_WORDS)
+    tup = rng.choice([("3", "12", "1"), ("3", "9", "0"), ("2", "7", "18"), ("3", "13", "0a1+"), ("3", "10"), ("3",), (), ("3", "12", "1", "x")])
+    return [Env([("sys.implementation.version", v), ("sys.implementation.name", w()), ("os.name", w()), ("sys.platform", w()),
+                 ("platform.machine", [((), w())]), ("platform.release", [((), w())]), ("platform.system", [((), w())]),
+                 ("platform.version", [((), w())]), ("platform.python_version", [((), w())]),
+                 ("platform.python_implementation", [((), w())]), ("platform.python_version_tuple", [((), tup)])])]
+
+
+def _x10_apply(env):
+    """patch the names `sys`, `os`, `platform` of packaging.markers so that default_environment sees the table"""
+    from packaging import markers as MK
+    d = dict(env)
+    saved = {k: getattr(MK, k) for k in ("sys", "os", "platform")}
+    call = lambda key: (lambda: dict((tuple(a), r) for a, r in d[key])[()])
+    MK.sys = types.SimpleNamespace(implementation=types.SimpleNamespace(version=d["sys.implementation.version"],
+                                                                          name=d["sys.implementation.name"]),
+                                   platform=d["sys.platform"])
+    MK.os = types.SimpleNamespace(name=d["os.name"])
+    MK.platform = types.SimpleNamespace(**{k.split(".", 1)[1]: call(k) for k in d if k.startswith("platform.")})
+
+    def undo():
+        for k, v in saved.items():
+            setattr(MK, k, v)
+    return undo
+
+
+FUNCS.update({"default_environment": ("packaging.markers", "default_environment", _g_default_environment)})
+
 class _Src:
     def cases(self, rng, n, names):
         """n `src.call` cases spread over the named functions"""
@@ -2518,6 +2556,8 @@ class _Src:
             undo = _x6_apply(vals.pop(0))
             import sys as _sys
             vals = [_sys.executable if isinstance(v, str) and v == X6_EXE else v for v in vals]   # the scratch file of `probes`
+        if name in X10_ENV_FUNCS:                                         # x10
+            undo = _x10_apply(vals.pop(0))
         if name in ENV_FUNCS:
             env = vals.pop(0)
             undo = _apply_env([(k, (list(v) if k == "platform_tags" else v)) for k, v in env])
